@@ -22,7 +22,9 @@ theorem T_C01_checked (inp : Inp) (st : St) (h : run inp = .ok st) :
     · split at h
       · rename_i hk
         cases h
-        exact ⟨by simpa using hc, hk⟩
+        have hc' : (coincComplete inp && nbrsValid inp) = true := by simpa using hc
+        rw [Bool.and_eq_true] at hc'
+        exact ⟨hc'.1, hk⟩
       · cases h
 
 theorem axisConsistent_of_checkAll {inp : Inp} {st : St} (h : checkAll inp st = true) {x : Nat}
